@@ -226,7 +226,7 @@ Lemma pst_S f ts : pst (S f) ts =
   | TDot :: r => Some (SAxis Self NTNode [], r)
   | TDotDot :: r => Some (SAxis Parent NTNode [], r)
   | TAt :: r => with_test Attribute r
-  | TName a :: TColonColon :: r => match axis_of_name (kw false a) with Some ax => with_test ax r | None => None end
+  | TName a :: TColonColon :: r => match axis_asis false a with Some ax => with_test ax r | None => None end
   | TName n :: TLPar :: r =>
       if fname_ok false n then
         match pa f r with Some (args, r2) => Some (SCall (None, n) args, r2) | None => None end
@@ -245,97 +245,121 @@ Definition PL (g lvl : nat) (ts : list tok) : option (expr * list tok) :=
 Definition PLU (g : nat) (ts : list tok) : option (expr * list tok) :=
   match pp g ts with Some (p, r) => ul g p r | None => None end.
 
-(** operators on the left spine of [e] at level [lvl] *)
-Fixpoint nops (lvl : nat) (e : expr) : nat :=
+Section AB.
+(** [xp]: redundant pairs of parentheses per sub-expression; [ab = false]: steps written in
+    full, [ab = true]: abbreviated steps and [//] *)
+Variable xp : expr -> nat.
+Variable ab : bool.
+Local Notation rk := (Render.rendk xp ab).
+Local Notation rz := (fun a : expr => Render.rendk xp ab (xp a) 0 a).
+Local Notation rend_step := (Render.rend_step xp ab).
+Local Notation join := (join_steps ab (Render.rend_step xp ab)).
+Local Notation lead := (lead_steps ab (Render.rend_step xp ab)).
+
+(** operators on the left spine of [e] at level [lvl], when [e] is written with [k] redundant pairs *)
+Fixpoint nops0 (lvl : nat) (e : expr) : nat :=
+  let sub a := match xp a with O => nops0 lvl a | S _ => 0 end in
   match e with
-  | EOr a _ => if Nat.eqb lvl 0 then S (nops lvl a) else 0
-  | EAnd a _ => if Nat.eqb lvl 1 then S (nops lvl a) else 0
-  | ECmp op a _ => if Nat.eqb lvl (cmp_level op) then S (nops lvl a) else 0
-  | EArith op a _ => if Nat.eqb lvl (ar_level op) then S (nops lvl a) else 0
+  | EOr a _ => if Nat.eqb lvl 0 then S (sub a) else 0
+  | EAnd a _ => if Nat.eqb lvl 1 then S (sub a) else 0
+  | ECmp op a _ => if Nat.eqb lvl (cmp_level op) then S (sub a) else 0
+  | EArith op a _ => if Nat.eqb lvl (ar_level op) then S (sub a) else 0
   | _ => 0
   end.
-Fixpoint nu (e : expr) : nat := match e with EUnion a _ => S (nu a) | _ => 0 end.
+Definition nops (k lvl : nat) (e : expr) : nat := match k with O => nops0 lvl e | S _ => 0 end.
+Fixpoint nu0 (e : expr) : nat :=
+  match e with EUnion a _ => S (match xp a with O => nu0 a | S _ => 0 end) | _ => 0 end.
+Definition nu (k : nat) (e : expr) : nat := match k with O => nu0 e | S _ => 0 end.
 
-Section AB.
-(** [ab = false]: steps written in full; [ab = true]: abbreviated steps and [//] *)
-Variable ab : bool.
-Local Notation rend := (Render.rend ab).
-Local Notation rend_step := (Render.rend_step ab).
-Local Notation join := (join_steps ab (Render.rend_step ab)).
-Local Notation lead := (lead_steps ab (Render.rend_step ab)).
-
-Definition A (e : expr) (lvl : nat) : Prop := forall f X, fol lvl X = true ->
-  Nb lvl (length (rend lvl e)) <= f -> pb f lvl (rend lvl e ++ X) = Some (e, X).
-Definition C (e : expr) (lvl : nat) : Prop := forall f X, fol (S lvl) X = true ->
-  Nb (S lvl) (length (rend lvl e)) <= f + nops lvl e ->
-  PL (f + nops lvl e) lvl (rend lvl e ++ X) = bl f lvl e X.
-Definition U (e : expr) : Prop := forall f X, fol 7 X = true ->
-  Nu (length (rend 6 e)) <= f -> pu f (rend 6 e ++ X) = Some (e, X).
-Definition B (e : expr) : Prop := forall f X, fol 8 X = true ->
-  Np (length (rend 8 e)) <= f -> pp f (rend 8 e ++ X) = Some (e, X).
-Definition D (e : expr) : Prop := forall f X, fol 8 X = true ->
-  Np (length (rend 7 e)) <= f + nu e -> PLU (f + nu e) (rend 7 e ++ X) = ul f e X.
-Definition E (e : expr) : Prop := simple_primary e = true -> forall f X,
-  Npm (length (rend 0 e)) <= f -> ppm f (rend 0 e ++ X) = Some (e, X).
-Definition Good (e : expr) : Prop :=
-  (forall lvl, lvl <= 6 -> A e lvl) /\ (forall lvl, lvl <= 5 -> C e lvl) /\ U e /\ B e /\ D e /\ E e.
+Definition A (k : nat) (e : expr) (lvl : nat) : Prop := forall f X, fol lvl X = true ->
+  Nb lvl (length (rk k lvl e)) <= f -> pb f lvl (rk k lvl e ++ X) = Some (e, X).
+Definition C (k : nat) (e : expr) (lvl : nat) : Prop := forall f X, fol (S lvl) X = true ->
+  Nb (S lvl) (length (rk k lvl e)) <= f + nops k lvl e ->
+  PL (f + nops k lvl e) lvl (rk k lvl e ++ X) = bl f lvl e X.
+Definition U (k : nat) (e : expr) : Prop := forall f X, fol 7 X = true ->
+  Nu (length (rk k 6 e)) <= f -> pu f (rk k 6 e ++ X) = Some (e, X).
+Definition B (k : nat) (e : expr) : Prop := forall f X, fol 8 X = true ->
+  Np (length (rk k 8 e)) <= f -> pp f (rk k 8 e ++ X) = Some (e, X).
+Definition D (k : nat) (e : expr) : Prop := forall f X, fol 8 X = true ->
+  Np (length (rk k 7 e)) <= f + nu k e -> PLU (f + nu k e) (rk k 7 e ++ X) = ul f e X.
+Definition E (k : nat) (e : expr) : Prop := simple_primary e = true -> forall f X,
+  Npm (length (rk k 0 e)) <= f -> ppm f (rk k 0 e ++ X) = Some (e, X).
+Definition Good (k : nat) (e : expr) : Prop :=
+  (forall lvl, lvl <= 6 -> A k e lvl) /\ (forall lvl, lvl <= 5 -> C k e lvl) /\ U k e /\ B k e /\ D k e /\ E k e.
 
 (** ** the shape of renderings *)
-Lemma rend_unfold lvl e : rend lvl e =
-  let body :=
-    match e with
-    | EOr a b => rend 0 a ++ TName (lit "or") :: rend 1 b
-    | EAnd a b => rend 1 a ++ TName (lit "and") :: rend 2 b
-    | ECmp op a b => rend (cmp_level op) a ++ cmp_tok op :: rend (S (cmp_level op)) b
-    | EArith op a b => rend (ar_level op) a ++ ar_tok op :: rend (S (ar_level op)) b
-    | ENeg a => TMinus :: rend 6 a
-    | EUnion a b => rend 7 a ++ TPipe :: rend 8 b
-    | ELit s => [TLiteral s]
-    | ENum s => [TNumber s]
-    | EVar q => [TVar q]
-    | ECall q args => qname_toks q ++ TLPar :: sep_by TComma (rend 0) args ++ [TRPar]
-    | EPath abs steps => if abs then lead steps else join steps
-    | EFilter e0 preds steps =>
-        (if simple_primary e0 then rend 0 e0 else parens (rend 0 e0)) ++ brackets (rend 0) preds
-        ++ match steps with [] => [] | _ => lead steps end
-    end in
-  if Nat.ltb (level e) lvl || bare_root e then parens body else body.
+Definition body (e : expr) : list tok :=
+  match e with
+  | EOr a b => rk (xp a) 0 a ++ TName (lit "or") :: rk (xp b) 1 b
+  | EAnd a b => rk (xp a) 1 a ++ TName (lit "and") :: rk (xp b) 2 b
+  | ECmp op a b => rk (xp a) (cmp_level op) a ++ cmp_tok op :: rk (xp b) (S (cmp_level op)) b
+  | EArith op a b => rk (xp a) (ar_level op) a ++ ar_tok op :: rk (xp b) (S (ar_level op)) b
+  | ENeg a => TMinus :: rk (xp a) 6 a
+  | EUnion a b => rk (xp a) 7 a ++ TPipe :: rk (xp b) 8 b
+  | ELit s => [TLiteral s]
+  | ENum s => [TNumber s]
+  | EVar q => [TVar q]
+  | ECall q args => qname_toks q ++ TLPar :: sep_by TComma rz args ++ [TRPar]
+  | EPath abs steps => if abs then lead steps else join steps
+  | EFilter e0 preds steps =>
+      (if simple_primary e0 then rk (xp e0) 0 e0 else parens (rk (xp e0) 0 e0)) ++ brackets rz preds
+      ++ match steps with [] => [] | _ => lead steps end
+  end.
+
+Lemma rend_unfold lvl e : rk 0 lvl e = if Nat.ltb (level e) lvl || bare_root e then parens (body e) else body e.
+Proof. destruct e; reflexivity. Qed.
+Lemma rend_wrapped k lvl e : rk (S k) lvl e = parensN (S k) (body e).
 Proof. destruct e; reflexivity. Qed.
 
-Lemma rend_same lvl lvl' e : Nat.ltb (level e) lvl = Nat.ltb (level e) lvl' -> rend lvl e = rend lvl' e.
-Proof. intros H. rewrite (rend_unfold lvl), (rend_unfold lvl'). cbv zeta. now rewrite H. Qed.
-
-Lemma rend_S lvl e : level e <> lvl -> rend lvl e = rend (S lvl) e.
+Lemma rend_same k lvl lvl' e : (k = 0 -> Nat.ltb (level e) lvl = Nat.ltb (level e) lvl') -> rk k lvl e = rk k lvl' e.
 Proof.
-  intros H. apply rend_same. destruct (Nat.ltb_spec (level e) lvl), (Nat.ltb_spec (level e) (S lvl)); try reflexivity; lia.
+  destruct k; intros H; [|now rewrite !rend_wrapped].
+  rewrite (rend_unfold lvl), (rend_unfold lvl'). now rewrite H.
 Qed.
 
-Lemma rend_paren lvl e : level e < lvl -> bare_root e = false -> rend lvl e = parens (rend 0 e).
+Lemma rend_S k lvl e : (k = 0 -> level e <> lvl) -> rk k lvl e = rk k (S lvl) e.
 Proof.
-  intros H Hb. rewrite (rend_unfold lvl), (rend_unfold 0). cbv zeta. rewrite Hb.
+  intros H. apply rend_same. intros Hk. specialize (H Hk).
+  destruct (Nat.ltb_spec (level e) lvl), (Nat.ltb_spec (level e) (S lvl)); try reflexivity; lia.
+Qed.
+
+Lemma rend_paren lvl e : level e < lvl -> bare_root e = false -> rk 0 lvl e = parens (rk 0 0 e).
+Proof.
+  intros H Hb. rewrite (rend_unfold lvl), (rend_unfold 0). rewrite Hb.
   replace (Nat.ltb (level e) lvl) with true by (symmetry; now apply Nat.ltb_lt).
   replace (Nat.ltb (level e) 0) with false by (symmetry; apply Nat.ltb_ge; lia). reflexivity.
 Qed.
 
-Lemma nops_0 lvl e : level e <> lvl -> nops lvl e = 0.
+Lemma nops_0 k lvl e : (k = 0 -> level e <> lvl) -> nops k lvl e = 0.
 Proof.
-  destruct e; simpl; intros H; try reflexivity.
+  destruct k; [|reflexivity]. intros H. specialize (H eq_refl).
+  destruct e; unfold nops; cbn [nops0]; try reflexivity; simpl level in H.
   all: match goal with |- (if Nat.eqb ?a ?b then _ else _) = _ => destruct (Nat.eqb_spec a b); [congruence|reflexivity] end.
 Qed.
 
-Lemma nops_le lvl e : nops lvl e <= length (rend lvl e).
+Lemma nops_S lvl e a : (match e with EOr x _ | EAnd x _ | ECmp _ x _ | EArith _ x _ => x = a | _ => False end) ->
+  level e = lvl -> nops 0 lvl e = S (nops (xp a) lvl a).
 Proof.
-  revert lvl. induction e; intros lvl; simpl nops; try lia.
-  all: match goal with |- (if Nat.eqb ?a ?b then _ else _) <= _ => destruct (Nat.eqb_spec a b); [subst|lia] end.
-  all: rewrite rend_unfold; cbv zeta; simpl level; rewrite Nat.ltb_irrefl; simpl orb; cbv iota;
-    rewrite app_length; simpl length.
-  all: match goal with IH : forall l, nops l ?a <= _ |- S (nops ?l ?a) <= _ => specialize (IH l); lia end.
+  destruct e; try contradiction; intros -> <-; simpl; rewrite ?Nat.eqb_refl; reflexivity.
 Qed.
 
-Lemma nu_le e : nu e <= length (rend 7 e).
+Lemma parensN_length k T : length T <= length (parensN k T).
+Proof. induction k; simpl; [lia|]. unfold parens. cbn [length]. rewrite app_length. lia. Qed.
+
+Lemma nops_le e : forall k lvl, nops k lvl e <= length (rk k lvl e).
 Proof.
-  induction e; simpl nu; try lia.
-  rewrite rend_unfold; cbv zeta; simpl. rewrite app_length. simpl. lia.
+  induction e; intros k lvl; destruct k; try (simpl; lia); unfold nops; cbn [nops0]; try lia.
+  all: match goal with |- (if Nat.eqb ?a ?b then _ else _) <= _ => destruct (Nat.eqb_spec a b); [subst|lia] end.
+  all: rewrite rend_unfold; simpl level; rewrite Nat.ltb_irrefl; simpl orb; cbv iota; cbn [body];
+    rewrite app_length; simpl length.
+  all: match goal with IH : forall k l, nops k l ?a <= _ |- S (match xp ?a with _ => _ end) <= length (rk _ ?l ?a) + _ =>
+         specialize (IH (xp a) l); unfold nops in IH; lia end.
+Qed.
+
+Lemma nu_le e : forall k, nu k e <= length (rk k 7 e).
+Proof.
+  induction e; intros k; destruct k; try (simpl; lia); unfold nu; cbn [nu0]; try lia.
+  rewrite rend_unfold; simpl. rewrite app_length. simpl. specialize (IHe1 (xp e1)). unfold nu in IHe1. lia.
 Qed.
 
 (** ** generic steps between the entry points *)
@@ -351,39 +375,39 @@ Proof.
   apply fol_no_pipe in HX. destruct X as [|[] X]; try reflexivity. contradiction.
 Qed.
 
-Lemma A_from_C e lvl : lvl <= 5 -> C e lvl -> A e lvl.
+Lemma A_from_C k e lvl : lvl <= 5 -> C k e lvl -> A k e lvl.
 Proof.
-  intros Hl HC f X HX Hf. pose proof (nops_le lvl e) as Hn.
+  intros Hl HC f X HX Hf. pose proof (nops_le e k lvl) as Hn.
   destruct f as [|g]; [unfold Nb in Hf; lia|]. rewrite pb_S.
   replace (Nat.leb 6 lvl) with false by (symmetry; apply Nat.leb_gt; lia).
-  replace g with ((g - nops lvl e) + nops lvl e) by (unfold Nb in Hf; lia).
-  fold (PL (g - nops lvl e + nops lvl e) lvl (rend lvl e ++ X)).
+  replace g with ((g - nops k lvl e) + nops k lvl e) by (unfold Nb in Hf; lia).
+  fold (PL (g - nops k lvl e + nops k lvl e) lvl (rk k lvl e ++ X)).
   rewrite HC.
   - apply bl_stop; [exact HX|]. unfold Nb in Hf. lia.
   - eapply fol_mono; [exact HX|lia].
   - unfold Nb in *. lia.
 Qed.
 
-Lemma C_from_A e lvl : level e <> lvl -> lvl <= 5 -> A e (S lvl) -> C e lvl.
+Lemma C_from_A k e lvl : (k = 0 -> level e <> lvl) -> lvl <= 5 -> A k e (S lvl) -> C k e lvl.
 Proof.
-  intros Hne Hl HA f X HX Hf. rewrite (nops_0 lvl e Hne) in *. rewrite Nat.add_0_r in *.
-  rewrite (rend_S lvl e Hne) in *. unfold PL. now rewrite HA.
+  intros Hne Hl HA f X HX Hf. rewrite (nops_0 k lvl e Hne) in *. rewrite Nat.add_0_r in *.
+  rewrite (rend_S k lvl e Hne) in *. unfold PL. now rewrite HA.
 Qed.
 
-Lemma A6_from_U e : U e -> A e 6.
+Lemma A6_from_U k e : U k e -> A k e 6.
 Proof.
   intros HU f X HX Hf. destruct f as [|g]; [unfold Nb in Hf; lia|]. rewrite pb_S. simpl Nat.leb. cbv iota.
   apply HU; [eapply fol_mono; [exact HX|lia]|]. unfold Nb, Nu in *. lia.
 Qed.
 
 (** from [A e hi] down to [lo], when no level in between is [e]'s own *)
-Lemma descend e hi lo : hi <= 6 -> A e hi -> (forall lvl, lo <= lvl < hi -> level e <> lvl) ->
-  forall k lvl, lvl + k = hi -> lo <= lvl -> A e lvl /\ (lvl < hi -> C e lvl).
+Lemma descend k e hi lo : hi <= 6 -> A k e hi -> (forall lvl, lo <= lvl < hi -> k = 0 -> level e <> lvl) ->
+  forall n lvl, lvl + n = hi -> lo <= lvl -> A k e lvl /\ (lvl < hi -> C k e lvl).
 Proof.
-  intros Hhi HA Hne. induction k as [|k IH]; intros lvl Hk Hlo.
+  intros Hhi HA Hne. induction n as [|n IH]; intros lvl Hk Hlo.
   - replace lvl with hi by lia. split; [exact HA|lia].
   - destruct (IH (S lvl)) as [HA' _]; [lia|lia|].
-    assert (HC : C e lvl) by (apply C_from_A; [apply Hne; lia|lia|exact HA']).
+    assert (HC : C k e lvl) by (apply C_from_A; [apply Hne; lia|lia|exact HA']).
     split; [apply A_from_C; [lia|exact HC]|intros _; exact HC].
 Qed.
 
@@ -392,7 +416,11 @@ Proof.
   intros HX Hf. destruct f as [|f]; [lia|]. rewrite ppr_S. destruct X as [|[] X]; try reflexivity. contradiction.
 Qed.
 
-Lemma paren_pp_gen T e : (forall f X, fol 0 X = true -> Nb 0 (length T) <= f -> pb f 0 (T ++ X) = Some (e, X)) ->
+(** [T] read at level 0 is [e] *)
+Definition inner0 (e : expr) (T : list tok) : Prop :=
+  forall f X, fol 0 X = true -> Nb 0 (length T) <= f -> pb f 0 (T ++ X) = Some (e, X).
+
+Lemma paren_pp_gen T e : inner0 e T ->
   forall f X, fol 8 X = true -> Np (length (parens T)) <= f -> pp f (parens T ++ X) = Some (e, X).
 Proof.
   intros HA f X HX Hf. unfold parens in *. cbn [app length] in *. rewrite app_length in Hf. cbn [length] in Hf.
@@ -404,42 +432,47 @@ Proof.
   apply fol_quiet in HX. destruct X as [|[] X]; try reflexivity; contradiction.
 Qed.
 
-Lemma paren_pp e : A e 0 -> forall f X, fol 8 X = true ->
-  Np (length (parens (rend 0 e))) <= f -> pp f (parens (rend 0 e) ++ X) = Some (e, X).
-Proof. intros HA. apply paren_pp_gen. exact HA. Qed.
-
-Lemma paren_pu e : A e 0 -> forall f X, fol 7 X = true ->
-  Nu (length (parens (rend 0 e))) <= f -> pu f (parens (rend 0 e) ++ X) = Some (e, X).
+Lemma paren_pu_gen T e : inner0 e T -> forall f X, fol 7 X = true ->
+  Nu (length (parens T)) <= f -> pu f (parens T ++ X) = Some (e, X).
 Proof.
   intros HA f X HX Hf. destruct f as [|g]; [unfold Nu in Hf; lia|]. rewrite pu_S.
-  change (parens (rend 0 e) ++ X) with (TLPar :: (rend 0 e ++ [TRPar]) ++ X). cbv iota.
-  change (TLPar :: (rend 0 e ++ [TRPar]) ++ X) with (parens (rend 0 e) ++ X).
-  rewrite paren_pp; [|exact HA|eapply fol_mono; [exact HX|lia]|unfold Nu, Np in *; lia].
+  change (parens T ++ X) with (TLPar :: (T ++ [TRPar]) ++ X). cbv iota.
+  change (TLPar :: (T ++ [TRPar]) ++ X) with (parens T ++ X).
+  rewrite (paren_pp_gen T e HA); [|eapply fol_mono; [exact HX|lia]|unfold Nu, Np in *; lia].
   apply ul_stop; [exact HX|]. unfold Nu in Hf. lia.
 Qed.
 
-Lemma D_from_B e : level e <> 7 -> B e -> D e.
+Lemma paren_pp e : A 0 e 0 -> forall f X, fol 8 X = true ->
+  Np (length (parens (rk 0 0 e))) <= f -> pp f (parens (rk 0 0 e) ++ X) = Some (e, X).
+Proof. intros HA. apply paren_pp_gen. exact HA. Qed.
+
+Lemma paren_pu e : A 0 e 0 -> forall f X, fol 7 X = true ->
+  Nu (length (parens (rk 0 0 e))) <= f -> pu f (parens (rk 0 0 e) ++ X) = Some (e, X).
+Proof. intros HA. apply paren_pu_gen. exact HA. Qed.
+
+Lemma D_from_B k e : (k = 0 -> level e <> 7) -> B k e -> D k e.
 Proof.
-  intros Hne HB f X HX Hf. assert (Hnu : nu e = 0) by (destruct e; try reflexivity; simpl in Hne; congruence).
-  rewrite Hnu in *. rewrite Nat.add_0_r in *. rewrite (rend_S 7 e Hne) in *. unfold PLU. now rewrite HB.
+  intros Hne HB f X HX Hf.
+  assert (Hnu : nu k e = 0) by (destruct k; [specialize (Hne eq_refl); destruct e; try reflexivity; simpl in Hne; congruence|reflexivity]).
+  rewrite Hnu in *. rewrite Nat.add_0_r in *. rewrite (rend_S k 7 e Hne) in *. unfold PLU. now rewrite HB.
 Qed.
 
 Definition first_ok (t : tok) : bool :=
   match t with TLPar | TLiteral _ | TNumber _ | TVar _ | TName _ | TSlash | TSlashSlash | TStar | TAt | TDot | TDotDot => true | _ => false end.
 
-Lemma U_from_D e : 7 <= level e -> (exists t r, rend 7 e = t :: r /\ first_ok t = true) -> D e -> U e.
+Lemma U_from_D k e : (k = 0 -> 7 <= level e) -> (exists t r, rk k 7 e = t :: r /\ first_ok t = true) -> D k e -> U k e.
 Proof.
-  intros Hl (t & r & Hr & Ht) HD f X HX Hf. pose proof (nu_le e) as Hn.
-  assert (Hs : rend 6 e = rend 7 e) by (apply rend_S; lia). rewrite Hs in *.
+  intros Hl (t & r & Hr & Ht) HD f X HX Hf. pose proof (nu_le e k) as Hn.
+  assert (Hs : rk k 6 e = rk k 7 e) by (apply rend_S; intros Hk; specialize (Hl Hk); lia). rewrite Hs in *.
   destruct f as [|g]; [unfold Nu in Hf; lia|]. rewrite pu_S.
-  assert (Hpu : forall ts, ts = rend 7 e ++ X ->
+  assert (Hpu : forall ts, ts = rk k 7 e ++ X ->
             match ts with
-            | TMinus :: r0 => match pu g r0 with Some (e0, r') => Some (ENeg e0, r') | None => None end
-            | _ => match pp g ts with Some (p, r0) => ul g p r0 | None => None end
+            | TMinus :: r1 => match pu g r1 with Some (e0, r') => Some (ENeg e0, r') | None => None end
+            | _ => match pp g ts with Some (p, r1) => ul g p r1 | None => None end
             end = PLU g ts).
   { intros ts ->. rewrite Hr. cbn [app]. destruct t; try discriminate; reflexivity. }
   rewrite (Hpu _ eq_refl).
-  replace g with ((g - nu e) + nu e) by (unfold Nu in Hf; lia).
+  replace g with ((g - nu k e) + nu k e) by (unfold Nu in Hf; lia).
   rewrite HD; [|eapply fol_mono; [exact HX|lia]|unfold Nu, Np in *; lia].
   apply ul_stop; [exact HX|]. unfold Nu in Hf. lia.
 Qed.
@@ -448,8 +481,8 @@ Qed.
 Lemma brackets_cons f p ps : brackets f (p :: ps) = TLBr :: f p ++ TRBr :: brackets f ps.
 Proof. unfold brackets. cbn [map concat app]. now rewrite <- app_assoc. Qed.
 
-Lemma preds_ok ps : Forall (fun p => A p 0) ps -> forall f X, no_lbr X ->
-  Npr (length (brackets (rend 0) ps)) <= f -> ppr f (brackets (rend 0) ps ++ X) = Some (ps, X).
+Lemma preds_ok ps : Forall (fun p => A (xp p) p 0) ps -> forall f X, no_lbr X ->
+  Npr (length (brackets rz ps)) <= f -> ppr f (brackets rz ps ++ X) = Some (ps, X).
 Proof.
   induction 1 as [|p ps Hp _ IH]; intros f X HX Hf.
   - apply ppr_none; [exact HX|unfold Npr in Hf; lia].
@@ -459,7 +492,7 @@ Proof.
     rewrite IH; [reflexivity|exact HX|unfold Npr in *; lia].
 Qed.
 
-Definition starts_ok (e : expr) : Prop := exists t r, rend 0 e = t :: r /\ t <> TRPar.
+Definition starts_ok (e : expr) : Prop := exists t r, rk (xp e) 0 e = t :: r /\ t <> TRPar.
 
 Lemma pa_open f t r : t <> TRPar -> pa (S f) (t :: r) =
   match pb f 0 (t :: r) with
@@ -478,9 +511,9 @@ Proof. reflexivity. Qed.
 Lemma sep_by_one {T} sep (f : T -> list tok) a : sep_by sep f [a] = f a.
 Proof. reflexivity. Qed.
 
-Lemma args_ok args : Forall (fun a => A a 0) args -> Forall starts_ok args -> forall f X,
-  Na (length (sep_by TComma (rend 0) args) + 1) <= f ->
-  pa f (sep_by TComma (rend 0) args ++ TRPar :: X) = Some (args, X).
+Lemma args_ok args : Forall (fun a => A (xp a) a 0) args -> Forall starts_ok args -> forall f X,
+  Na (length (sep_by TComma rz args) + 1) <= f ->
+  pa f (sep_by TComma rz args ++ TRPar :: X) = Some (args, X).
 Proof.
   induction args as [|a r IH]; intros HA HS f X Hf.
   - destruct f as [|g]; [unfold Na in Hf; lia|]. reflexivity.
@@ -492,8 +525,8 @@ Proof.
       rewrite Ha; [reflexivity|reflexivity|unfold Na, Nb in *; lia].
     + rewrite sep_by_cons2 in *. rewrite app_length in Hf. cbn [length] in Hf.
       rewrite <- app_assoc. cbn [app]. rewrite Ht at 1. cbn [app]. rewrite pa_open by exact Hne.
-      change (t :: r0 ++ TComma :: sep_by TComma (rend 0) (b :: r) ++ TRPar :: X)
-        with ((t :: r0) ++ TComma :: sep_by TComma (rend 0) (b :: r) ++ TRPar :: X). rewrite <- Ht.
+      change (t :: r0 ++ TComma :: sep_by TComma rz (b :: r) ++ TRPar :: X)
+        with ((t :: r0) ++ TComma :: sep_by TComma rz (b :: r) ++ TRPar :: X). rewrite <- Ht.
       rewrite Ha; [|reflexivity|unfold Na, Nb in *; lia].
       rewrite IH; [|exact HAr|exact HSr|unfold Na in *; lia].
       inversion HSr as [|? ? (t2 & r2 & Ht2 & Hne2) _]; subst.
@@ -575,21 +608,22 @@ Proof.
   unfold lead_steps. destruct steps as [|d [|x r]]; eauto. destruct (ab && is_dos d); eauto.
 Qed.
 
-Lemma rend_head e : wf e = true -> forall lvl, exists t r, rend lvl e = t :: r /\
+Lemma rend_head e : wf e = true -> forall k lvl, exists t r, rk k lvl e = t :: r /\
   (first_ok t = true \/ (t = TMinus /\ lvl <= 6)).
 Proof.
   induction e as [a IHa b IHb|a IHa b IHb|op a IHa b IHb|op a IHa b IHb|a IHa|a IHa b IHb|v|t|q|q args|abs steps|e0 IHe0 preds steps];
-    intros Hw lvl; rewrite rend_unfold; cbv zeta;
+    intros Hw k lvl; (destruct k; [|rewrite rend_wrapped; cbn [parensN]; unfold parens; cbn [app]; eauto]);
+    rewrite rend_unfold;
     (destruct (Nat.ltb _ lvl || bare_root _) eqn:Ep; [unfold parens; cbn [app]; eauto|]);
-    apply Bool.orb_false_iff in Ep; destruct Ep as [Ep Eb]; apply Nat.ltb_ge in Ep; simpl level in Ep.
+    apply Bool.orb_false_iff in Ep; destruct Ep as [Ep Eb]; apply Nat.ltb_ge in Ep; simpl level in Ep; cbn [body].
   1-4: simpl in Hw; apply andb_prop in Hw; destruct Hw as [Hwa _];
-    match goal with IH : wf ?x = true -> _ |- context [rend ?l ?x ++ _] => destruct (IH Hwa l) as (t0 & r & -> & Ht) end;
+    match goal with IH : wf ?x = true -> _ |- context [rk (xp ?x) ?l ?x ++ _] => destruct (IH Hwa (xp x) l) as (t0 & r & -> & Ht) end;
     cbn [app]; exists t0; eexists; split; [reflexivity|];
     destruct Ht as [Ht|[-> Hl]]; [now left|right; split; [reflexivity|]].
   1-4: try (destruct op; simpl in *; lia); lia.
   - (* ENeg *) exists TMinus. eexists. split; [reflexivity|]. right. split; [reflexivity|exact Ep].
   - (* EUnion *) simpl in Hw. apply andb_prop in Hw. destruct Hw as [Hwa _].
-    destruct (IHa Hwa 7) as (t0 & r & -> & Ht). cbn [app]. exists t0. eexists. split; [reflexivity|].
+    destruct (IHa Hwa (xp a) 7) as (t0 & r & -> & Ht). cbn [app]. exists t0. eexists. split; [reflexivity|].
     destruct Ht as [Ht|[_ Hl]]; [now left|lia].
   - eauto. - eauto. - eauto.
   - (* ECall *) destruct q as [[p|] n]; cbn [qname_toks app]; eauto.
@@ -600,13 +634,14 @@ Proof.
       destruct (join_head s ss) as (t0 & r & -> & Ht). exists t0, r. split; [reflexivity|left].
       destruct t0; try discriminate; reflexivity.
   - (* EFilter *) destruct (simple_primary e0) eqn:Es; [|unfold parens; cbn [app]; eauto].
-    destruct e0; try discriminate; rewrite rend_unfold; cbv zeta; cbn [level Nat.ltb Nat.leb orb bare_root app]; eauto.
+    destruct e0; try discriminate; (destruct (xp _); [rewrite rend_unfold|rewrite rend_wrapped; cbn [parensN]; unfold parens; cbn [app]; eauto]);
+      cbn [level Nat.ltb Nat.leb orb bare_root body app]; eauto.
     destruct q as [[p|] n]; cbn [qname_toks app]; eauto.
 Qed.
 
 Lemma wf_starts_ok e : wf e = true -> starts_ok e.
 Proof.
-  intros Hw. destruct (rend_head e Hw 0) as (t & r & Hr & Ht). exists t, r. split; [exact Hr|].
+  intros Hw. destruct (rend_head e Hw (xp e) 0) as (t & r & Hr & Ht). exists t, r. split; [exact Hr|].
   destruct Ht as [Ht|[-> _]]; [|discriminate]. intros ->. discriminate.
 Qed.
 
@@ -640,9 +675,9 @@ Definition with_test_ (g : nat) (a : axis) (r : list tok) : option (stp * list t
   | Some (t, r2) => match ppr g r2 with Some (preds, r3) => Some (SAxis a t preds, r3) | None => None end
   end.
 
-Lemma with_test_ok g a t preds X : Forall (fun p => A p 0) preds -> stepfol X ->
-  Npr (length (brackets (rend 0) preds)) <= g ->
-  with_test_ g a (rend_test t ++ brackets (rend 0) preds ++ X) = Some (SAxis a t preds, X).
+Lemma with_test_ok g a t preds X : Forall (fun p => A (xp p) p 0) preds -> stepfol X ->
+  Npr (length (brackets rz preds)) <= g ->
+  with_test_ g a (rend_test t ++ brackets rz preds ++ X) = Some (SAxis a t preds, X).
 Proof.
   intros HP HX Hg. unfold with_test_. rewrite parse_nodetest_rend.
   - rewrite preds_ok; [reflexivity|exact HP|apply stepfol_no_lbr; exact HX|exact Hg].
@@ -650,7 +685,7 @@ Proof.
 Qed.
 
 Lemma pst_explicit g a r : pst (S g) (TName (axis_name a) :: TColonColon :: r) = with_test_ g a r.
-Proof. rewrite pst_S. cbv zeta. cbn [kw]. rewrite axis_of_name_axis_name. reflexivity. Qed.
+Proof. rewrite pst_S. cbv zeta. unfold axis_asis. rewrite axis_of_name_axis_name. reflexivity. Qed.
 Lemma pst_at g r : pst (S g) (TAt :: r) = with_test_ g Attribute r.
 Proof. reflexivity. Qed.
 (** the implicit child axis: a node test that is followed by neither [(], [:] nor [::] *)
@@ -661,22 +696,22 @@ Proof.
   - (* x *) destruct Y as [|[] Y]; simpl in HY; try contradiction; reflexivity.
 Qed.
 
-Lemma step_axis a t preds : Forall (fun p => A p 0) preds -> Qs (SAxis a t preds).
+Lemma step_axis a t preds : Forall (fun p => A (xp p) p 0) preds -> Qs (SAxis a t preds).
 Proof.
   intros HP f X HX Hf.
-  assert (Hexp : forall f, Ns (length (TName (axis_name a) :: TColonColon :: rend_test t ++ brackets (rend 0) preds)) <= f ->
-            pst f ((TName (axis_name a) :: TColonColon :: rend_test t ++ brackets (rend 0) preds) ++ X) = Some (SAxis a t preds, X)).
+  assert (Hexp : forall f, Ns (length (TName (axis_name a) :: TColonColon :: rend_test t ++ brackets rz preds)) <= f ->
+            pst f ((TName (axis_name a) :: TColonColon :: rend_test t ++ brackets rz preds) ++ X) = Some (SAxis a t preds, X)).
   { intros f0 Hf0. cbn [length app] in *. rewrite app_length in Hf0.
     destruct f0 as [|g]; [unfold Ns in Hf0; lia|]. rewrite pst_explicit. rewrite <- app_assoc.
     apply with_test_ok; [exact HP|exact HX|unfold Ns, Npr in *; lia]. }
-  assert (Himp : forall f, Ns (length (rend_test t ++ brackets (rend 0) preds)) <= f ->
-            pst f ((rend_test t ++ brackets (rend 0) preds) ++ X) = Some (SAxis Child t preds, X)).
+  assert (Himp : forall f, Ns (length (rend_test t ++ brackets rz preds)) <= f ->
+            pst f ((rend_test t ++ brackets rz preds) ++ X) = Some (SAxis Child t preds, X)).
   { intros f0 Hf0. rewrite app_length in Hf0.
     destruct f0 as [|g]; [unfold Ns in Hf0; lia|]. rewrite <- app_assoc. rewrite pst_implicit.
     - apply with_test_ok; [exact HP|exact HX|unfold Ns, Npr in *; lia].
     - destruct preds as [|p ps]; [apply stepfol_child_ok; exact HX|rewrite brackets_cons; exact I]. }
-  assert (Hat : forall f, Ns (length (TAt :: rend_test t ++ brackets (rend 0) preds)) <= f ->
-            pst f ((TAt :: rend_test t ++ brackets (rend 0) preds) ++ X) = Some (SAxis Attribute t preds, X)).
+  assert (Hat : forall f, Ns (length (TAt :: rend_test t ++ brackets rz preds)) <= f ->
+            pst f ((TAt :: rend_test t ++ brackets rz preds) ++ X) = Some (SAxis Attribute t preds, X)).
   { intros f0 Hf0. cbn [length app] in *. rewrite app_length in Hf0.
     destruct f0 as [|g]; [unfold Ns in Hf0; lia|]. rewrite pst_at. rewrite <- app_assoc.
     apply with_test_ok; [exact HP|exact HX|unfold Ns, Npr in *; lia]. }
@@ -693,9 +728,12 @@ Proof. unfold fname_ok, kw. cbn [andb negb]. now rewrite Bool.andb_true_r. Qed.
 Lemma pfname_ok_false p n : pfname_ok false p n = true.
 Proof. reflexivity. Qed.
 
-Lemma step_call q args : fn_ok q = true -> Forall (fun a => A a 0) args -> Forall starts_ok args -> Qs (SCall q args).
+Lemma rend_step_call q args : rend_step (SCall q args) = qname_toks q ++ TLPar :: sep_by TComma rz args ++ [TRPar].
+Proof. reflexivity. Qed.
+
+Lemma step_call q args : fn_ok q = true -> Forall (fun a => A (xp a) a 0) args -> Forall starts_ok args -> Qs (SCall q args).
 Proof.
-  intros Hq HA HS f X HX Hf. cbn [rend_step] in *. destruct q as [[p|] n]; cbn [qname_toks app length] in *;
+  intros Hq HA HS f X HX Hf. rewrite rend_step_call in *. destruct q as [[p|] n]; cbn [qname_toks app length] in *;
     rewrite app_length in Hf; cbn [length] in Hf;
     (destruct f as [|g]; [unfold Ns in Hf; lia|]); rewrite pst_S; cbv zeta; cbn [app].
   - rewrite pfname_ok_false. rewrite <- app_assoc. cbn [app].
@@ -738,9 +776,9 @@ Proof.
 Qed.
 
 Lemma pp_filter e0 T preds steps : prim_head T -> Prim e0 T ->
-  Forall (fun p => A p 0) preds -> Forall Qs steps ->
-  forall f X, fol 8 X = true -> Np (length (T ++ brackets (rend 0) preds ++ steps_part steps)) <= f ->
-  pp f (T ++ brackets (rend 0) preds ++ steps_part steps ++ X)
+  Forall (fun p => A (xp p) p 0) preds -> Forall Qs steps ->
+  forall f X, fol 8 X = true -> Np (length (T ++ brackets rz preds ++ steps_part steps)) <= f ->
+  pp f (T ++ brackets rz preds ++ steps_part steps ++ X)
   = Some (match preds, steps with [], [] => e0 | _, _ => EFilter e0 preds steps end, X).
 Proof.
   intros Hh HP Hpreds Hsteps f X HX Hf. repeat rewrite app_length in Hf.
@@ -775,14 +813,14 @@ Lemma Prim_num s : Prim (ENum s) [TNumber s].
 Proof. intros f Y Hf. destruct f; [unfold Npm in Hf; lia|reflexivity]. Qed.
 Lemma Prim_var q : Prim (EVar q) [TVar q].
 Proof. intros f Y Hf. destruct f; [unfold Npm in Hf; lia|reflexivity]. Qed.
-Lemma Prim_paren e : A e 0 -> Prim e (parens (rend 0 e)).
+Lemma Prim_paren T e : inner0 e T -> Prim e (parens T).
 Proof.
   intros HA f Y Hf. unfold parens in *. cbn [length app] in *. rewrite app_length in Hf. cbn [length] in Hf.
   destruct f as [|g]; [unfold Npm in Hf; lia|]. rewrite ppm_S. rewrite <- app_assoc. cbn [app].
   rewrite HA; [reflexivity|reflexivity|unfold Npm, Nb in *; lia].
 Qed.
-Lemma Prim_call q args : Forall (fun a => A a 0) args -> Forall starts_ok args ->
-  Prim (ECall q args) (qname_toks q ++ TLPar :: sep_by TComma (rend 0) args ++ [TRPar]).
+Lemma Prim_call q args : Forall (fun a => A (xp a) a 0) args -> Forall starts_ok args ->
+  Prim (ECall q args) (qname_toks q ++ TLPar :: sep_by TComma rz args ++ [TRPar]).
 Proof.
   intros HA HS f Y Hf. destruct q as [[p|] n]; cbn [qname_toks app length] in *; rewrite app_length in Hf; cbn [length] in Hf;
     (destruct f as [|g]; [unfold Npm in Hf; lia|]); rewrite ppm_S; rewrite <- app_assoc; cbn [app];
@@ -808,12 +846,12 @@ Proof.
   intros HW.
   assert (Hexp : forall R, match (TName (axis_name a) :: TColonColon :: R) ++ W with TRoot :: _ | TSlash :: _ | TSlashSlash :: _ => False | _ => True end /\
             starts_primary false ((TName (axis_name a) :: TColonColon :: R) ++ W) = false) by (intros R; split; [exact I|reflexivity]).
-  assert (Himp : match (rend_test t ++ brackets (rend 0) ps) ++ W with TRoot :: _ | TSlash :: _ | TSlashSlash :: _ => False | _ => True end /\
-            starts_primary false ((rend_test t ++ brackets (rend 0) ps) ++ W) = false).
+  assert (Himp : match (rend_test t ++ brackets rz ps) ++ W with TRoot :: _ | TSlash :: _ | TSlashSlash :: _ => False | _ => True end /\
+            starts_primary false ((rend_test t ++ brackets rz ps) ++ W) = false).
   { rewrite <- app_assoc.
-    assert (HY : child_ok (brackets (rend 0) ps ++ W)) by (destruct ps; [exact HW|rewrite brackets_cons; exact I]).
+    assert (HY : child_ok (brackets rz ps ++ W)) by (destruct ps; [exact HW|rewrite brackets_cons; exact I]).
     destruct t; cbn [rend_test app]; try (split; [exact I|reflexivity]);
-      destruct (brackets (rend 0) ps ++ W) as [|[] Y]; simpl in HY; try contradiction; split; try exact I; reflexivity. }
+      destruct (brackets rz ps ++ W) as [|[] Y]; simpl in HY; try contradiction; split; try exact I; reflexivity. }
   cbn [Render.rend_step]. cbv zeta. destruct ab; [|apply Hexp].
   destruct a; try apply Hexp; try exact Himp; try (split; [exact I|reflexivity]);
     destruct t; try apply Hexp; destruct ps; try apply Hexp; split; try exact I; reflexivity.
@@ -838,87 +876,89 @@ Proof.
 Qed.
 
 (** ** assembling [Good] *)
-Lemma good_from_U e : 6 <= level e -> U e -> B e -> D e -> E e -> Good e.
+Lemma good_from_U k e : (k = 0 -> 6 <= level e) -> U k e -> B k e -> D k e -> E k e -> Good k e.
 Proof.
   intros Hl HU HB HD HE.
-  assert (H6 : A e 6) by (apply A6_from_U; exact HU).
-  assert (Hd : forall lvl, lvl <= 6 -> A e lvl /\ (lvl < 6 -> C e lvl)).
-  { intros lvl Hlvl. apply (descend e 6 0) with (k := 6 - lvl); try lia; try exact H6; try (simpl; intros; lia). }
+  assert (H6 : A k e 6) by (apply A6_from_U; exact HU).
+  assert (Hd : forall lvl, lvl <= 6 -> A k e lvl /\ (lvl < 6 -> C k e lvl)).
+  { intros lvl Hlvl. apply (descend k e 6 0) with (n := 6 - lvl); try lia; try exact H6;
+      try (intros l Hl1 Hk; specialize (Hl Hk); lia). }
   split; [intros lvl H; apply Hd; exact H|]. split; [intros lvl H; apply Hd; lia|]. tauto.
 Qed.
 
-Lemma good_path e : level e = 8 -> wf e = true -> B e -> E e -> Good e.
+Lemma good_path e : level e = 8 -> wf e = true -> B 0 e -> E 0 e -> Good 0 e.
 Proof.
   intros Hl Hw HB HE.
-  assert (HD : D e) by (apply D_from_B; [lia|exact HB]).
-  apply good_from_U; try assumption; [lia|].
-  apply U_from_D; [lia| |exact HD].
-  destruct (rend_head e Hw 7) as (t & r & Hr & [Ht|[_ Hc]]); [eauto|lia].
+  assert (HD : D 0 e) by (apply D_from_B; [intros _; lia|exact HB]).
+  apply good_from_U; try assumption; [intros _; lia|].
+  apply U_from_D; [intros _; lia| |exact HD].
+  destruct (rend_head e Hw 0 7) as (t & r & Hr & [Ht|[_ Hc]]); [eauto|lia].
 Qed.
 
-Lemma E_not_simple e : simple_primary e = false -> E e.
+Lemma E_not_simple k e : simple_primary e = false -> E k e.
 Proof. intros H H'. congruence. Qed.
 
-Lemma good_paren_side e : level e <= 7 -> bare_root e = false -> A e 0 -> B e /\ (level e <> 7 -> D e).
+Lemma good_paren_side e : level e <= 7 -> bare_root e = false -> A 0 e 0 -> B 0 e /\ (level e <> 7 -> D 0 e).
 Proof.
   intros Hl Hb HA.
-  assert (HB : B e). { intros f X HX Hf. rewrite (rend_paren 8 e) in * by (assumption || lia). now apply paren_pp. }
-  split; [exact HB|intros; now apply D_from_B].
+  assert (HB : B 0 e). { intros f X HX Hf. rewrite (rend_paren 8 e) in * by (assumption || lia). now apply paren_pp. }
+  split; [exact HB|intros; apply D_from_B; [intros _; assumption|exact HB]].
 Qed.
 
-Lemma good_neg a : Good a -> Good (ENeg a).
+Lemma good_neg a : Good (xp a) a -> Good 0 (ENeg a).
 Proof.
   intros (_ & _ & Ua & _).
-  assert (HU : U (ENeg a)).
-  { intros f X HX Hf. rewrite (rend_unfold 6 (ENeg a)) in *. cbv zeta in *. cbn [level Nat.ltb Nat.leb orb bare_root app length] in *.
+  assert (HU : U 0 (ENeg a)).
+  { intros f X HX Hf. rewrite (rend_unfold 6 (ENeg a)) in *. cbn [level Nat.ltb Nat.leb orb bare_root body app length] in *.
     destruct f as [|g]; [unfold Nu in Hf; lia|]. rewrite pu_S.
     rewrite Ua; [reflexivity|exact HX|unfold Nu in *; lia]. }
-  assert (H6 : A (ENeg a) 6) by (apply A6_from_U; exact HU).
-  assert (H0 : A (ENeg a) 0). { apply (descend (ENeg a) 6 0) with (k := 6); try lia; try exact H6; try (simpl; intros; lia). }
+  assert (H6 : A 0 (ENeg a) 6) by (apply A6_from_U; exact HU).
+  assert (H0 : A 0 (ENeg a) 0). { apply (descend 0 (ENeg a) 6 0) with (n := 6); try lia; try exact H6; try (simpl; intros; lia). }
   destruct (good_paren_side (ENeg a)) as [HB HD]; [simpl; lia|reflexivity|exact H0|].
   apply good_from_U; [simpl; lia|exact HU|exact HB|apply HD; simpl; lia|apply E_not_simple; reflexivity].
 Qed.
 
-Lemma good_union a b : wf (EUnion a b) = true -> Good a -> Good b -> Good (EUnion a b).
+Lemma good_union a b : wf (EUnion a b) = true -> Good (xp a) a -> Good (xp b) b -> Good 0 (EUnion a b).
 Proof.
   intros Hw (_ & _ & _ & _ & Da & _) (_ & _ & _ & Bb & _).
-  assert (HD : D (EUnion a b)).
-  { intros f X HX Hf. pose proof (nu_le a) as Hn. simpl nu in *. rewrite (rend_unfold 7 (EUnion a b)) in *. cbv zeta in *.
-    cbn [level Nat.ltb Nat.leb orb bare_root] in *. rewrite app_length in Hf. cbn [length] in Hf.
-    replace (f + S (nu a)) with (S f + nu a) by lia. rewrite <- app_assoc. cbn [app].
+  assert (HD : D 0 (EUnion a b)).
+  { intros f X HX Hf. pose proof (nu_le a (xp a)) as Hn.
+    change (nu 0 (EUnion a b)) with (S (nu (xp a) a)) in *. rewrite (rend_unfold 7 (EUnion a b)) in *.
+    cbn [level Nat.ltb Nat.leb orb bare_root body] in *. rewrite app_length in Hf. cbn [length] in Hf.
+    replace (f + S (nu (xp a) a)) with (S f + nu (xp a) a) by lia. rewrite <- app_assoc. cbn [app].
     rewrite Da; [|reflexivity|unfold Np in *; lia]. rewrite ul_S.
     rewrite Bb; [reflexivity|exact HX|unfold Np in *; lia]. }
-  assert (HU : U (EUnion a b)).
+  assert (HU : U 0 (EUnion a b)).
   { apply U_from_D; [simpl; lia| |exact HD].
-    destruct (rend_head _ Hw 7) as (t & r & Hr & [Ht|[_ Hc]]); [eauto|lia]. }
-  assert (H6 : A (EUnion a b) 6) by (apply A6_from_U; exact HU).
-  assert (H0 : A (EUnion a b) 0). { apply (descend _ 6 0) with (k := 6); try lia; try exact H6; try (simpl; intros; lia). }
+    destruct (rend_head _ Hw 0 7) as (t & r & Hr & [Ht|[_ Hc]]); [eauto|lia]. }
+  assert (H6 : A 0 (EUnion a b) 6) by (apply A6_from_U; exact HU).
+  assert (H0 : A 0 (EUnion a b) 0). { apply (descend 0 _ 6 0) with (n := 6); try lia; try exact H6; try (simpl; intros; lia). }
   destruct (good_paren_side (EUnion a b)) as [HB _]; [simpl; lia|reflexivity|exact H0|].
   apply good_from_U; [simpl; lia|exact HU|exact HB|exact HD|apply E_not_simple; reflexivity].
 Qed.
 
 Lemma good_binary e a b L t (mk : expr -> expr -> expr) :
   L <= 5 -> level e = L -> op_at L t = Some mk -> e = mk a b ->
-  (forall lvl, lvl <= L -> rend lvl e = rend L a ++ t :: rend (S L) b) ->
-  nops L e = S (nops L a) -> bare_root e = false -> simple_primary e = false ->
-  Good a -> Good b -> Good e.
+  (forall lvl, lvl <= L -> rk 0 lvl e = rk (xp a) L a ++ t :: rk (xp b) (S L) b) ->
+  nops 0 L e = S (nops (xp a) L a) -> bare_root e = false -> simple_primary e = false ->
+  Good (xp a) a -> Good (xp b) b -> Good 0 e.
 Proof.
   intros HL Hlev Hop He Hrend Hnops Hbare Hsimple (Aa & Ca & _) (Ab & _).
-  assert (HC : C e L).
-  { intros f X HX Hf. pose proof (nops_le L a) as Hn. rewrite Hnops in *. rewrite (Hrend L (le_n _)) in *.
+  assert (HC : C 0 e L).
+  { intros f X HX Hf. pose proof (nops_le a (xp a) L) as Hn. rewrite Hnops in *. rewrite (Hrend L (le_n _)) in *.
     rewrite app_length in Hf. cbn [length] in Hf.
-    replace (f + S (nops L a)) with (S f + nops L a) by lia. rewrite <- app_assoc. cbn [app].
+    replace (f + S (nops (xp a) L a)) with (S f + nops (xp a) L a) by lia. rewrite <- app_assoc. cbn [app].
     rewrite (Ca L HL); [|simpl; rewrite (op_at_level _ _ _ Hop); replace (Nat.ltb L (S L)) with true by (symmetry; apply Nat.ltb_lt; lia); apply Bool.orb_true_r|unfold Nb in *; lia].
     rewrite bl_S. rewrite Hop.
     rewrite (Ab (S L)); [now subst e|lia|exact HX|unfold Nb in *; lia]. }
-  assert (HAL : A e L) by (apply A_from_C; assumption).
-  assert (Hlow : forall lvl, lvl <= L -> A e lvl /\ (lvl < L -> C e lvl)).
-  { intros lvl Hlvl. apply (descend e L 0) with (k := L - lvl); try lia; try exact HAL; try (intros; lia). }
-  assert (H0 : A e 0) by (apply Hlow; lia).
-  assert (HU : U e). { intros f X HX Hf. rewrite (rend_paren 6 e) in * by (assumption || lia). now apply paren_pu. }
-  assert (H6 : A e 6) by (apply A6_from_U; exact HU).
-  assert (Hhigh : forall lvl, L < lvl -> lvl <= 6 -> A e lvl /\ (lvl < 6 -> C e lvl)).
-  { intros lvl H1 H2. apply (descend e 6 (S L)) with (k := 6 - lvl); try lia; try exact H6; try (simpl; intros; lia). }
+  assert (HAL : A 0 e L) by (apply A_from_C; assumption).
+  assert (Hlow : forall lvl, lvl <= L -> A 0 e lvl /\ (lvl < L -> C 0 e lvl)).
+  { intros lvl Hlvl. apply (descend 0 e L 0) with (n := L - lvl); try lia; try exact HAL; try (intros; lia). }
+  assert (H0 : A 0 e 0) by (apply Hlow; lia).
+  assert (HU : U 0 e). { intros f X HX Hf. rewrite (rend_paren 6 e) in * by (assumption || lia). now apply paren_pu. }
+  assert (H6 : A 0 e 6) by (apply A6_from_U; exact HU).
+  assert (Hhigh : forall lvl, L < lvl -> lvl <= 6 -> A 0 e lvl /\ (lvl < 6 -> C 0 e lvl)).
+  { intros lvl H1 H2. apply (descend 0 e 6 (S L)) with (n := 6 - lvl); try lia; try exact H6; try (intros; lia). }
   destruct (good_paren_side e) as [HB HD]; [lia|exact Hbare|exact H0|].
   split; [|split; [|split; [exact HU|split; [exact HB|split; [apply HD; lia|apply E_not_simple; exact Hsimple]]]]].
   - intros lvl Hlvl. destruct (Nat.le_gt_cases lvl L); [apply Hlow; assumption|apply Hhigh; lia].
@@ -932,29 +972,73 @@ Proof.
   destruct (tok_level t); discriminate.
 Qed.
 
-Lemma bare_root_inner f X : fol 0 X = true -> Nb 0 1 <= f -> pb f 0 ([TSlash] ++ X) = Some (EPath true [], X).
+Lemma bare_root_inner : inner0 (EPath true []) [TSlash].
 Proof.
-  intros HX Hf. unfold Nb in Hf. simpl in Hf.
+  intros f X HX Hf. unfold Nb in Hf. simpl in Hf.
   do 12 (destruct f as [|f]; [lia|]). apply fol0 in HX.
   destruct X as [|[] X]; try discriminate HX; reflexivity.
 Qed.
 
-Lemma B_bare_root : B (EPath true []).
+Lemma B_bare_root : B 0 (EPath true []).
 Proof.
-  intros f X HX Hf. change (rend 8 (EPath true [])) with (parens [TSlash]) in *.
-  apply paren_pp_gen; [intros; now apply bare_root_inner|exact HX|exact Hf].
+  intros f X HX Hf. change (rk 0 8 (EPath true [])) with (parens [TSlash]) in *.
+  apply paren_pp_gen; [exact bare_root_inner|exact HX|exact Hf].
+Qed.
+
+(** ** redundant parentheses: any number of pairs around something that reads as [e] at level 0 *)
+Lemma parens_inj a b : parens a = parens b -> a = b.
+Proof. unfold parens. intros H. injection H as H. now apply app_inv_tail in H. Qed.
+
+Lemma good_wrapped e T : inner0 e T -> forall k, (forall lvl, rk (S k) lvl e = parensN (S k) T) -> Good (S k) e.
+Proof.
+  intros HT k. induction k as [|k IH]; intros Hr.
+  - assert (Hin : inner0 e (parensN 0 T)) by exact HT.
+    assert (HB : B 1 e) by (intros f X HX Hf; rewrite Hr in *; cbn [parensN] in *; now apply paren_pp_gen).
+    assert (HD : D 1 e) by (apply D_from_B; [discriminate|exact HB]).
+    apply good_from_U; try assumption; [discriminate| |].
+    + intros f X HX Hf. rewrite Hr in *. cbn [parensN] in *. now apply paren_pu_gen.
+    + intros _ f X Hf. rewrite Hr in *. cbn [parensN] in *. now apply Prim_paren.
+  - (* one more pair around the rendering with [S k] pairs *)
+    assert (Hk : Good (S k) e).
+    { apply IH. intros lvl. pose proof (Hr lvl) as H. rewrite rend_wrapped in *.
+      change (parensN (S (S k)) (body e)) with (parens (parensN (S k) (body e))) in H.
+      change (parensN (S (S k)) T) with (parens (parensN (S k) T)) in H. now apply parens_inj in H. }
+    destruct Hk as (HA & _).
+    assert (Hin : inner0 e (parensN (S k) T)).
+    { intros f X HX Hf. pose proof (HA 0 (Nat.le_0_l _) f X HX) as H.
+      assert (Hrk : rk (S k) 0 e = parensN (S k) T).
+      { pose proof (Hr 0) as H1. rewrite !rend_wrapped in *.
+        change (parensN (S (S k)) (body e)) with (parens (parensN (S k) (body e))) in H1.
+        change (parensN (S (S k)) T) with (parens (parensN (S k) T)) in H1. now apply parens_inj in H1. }
+      rewrite Hrk in H. apply H. exact Hf. }
+    assert (HB : B (S (S k)) e) by (intros f X HX Hf; rewrite Hr in *; change (parensN (S (S k)) T) with (parens (parensN (S k) T)) in *; now apply paren_pp_gen).
+    assert (HD : D (S (S k)) e) by (apply D_from_B; [discriminate|exact HB]).
+    apply good_from_U; try assumption; [discriminate| |].
+    + intros f X HX Hf. rewrite Hr in *. change (parensN (S (S k)) T) with (parens (parensN (S k) T)) in *. now apply paren_pu_gen.
+    + intros _ f X Hf. rewrite Hr in *. change (parensN (S (S k)) T) with (parens (parensN (S k) T)) in *. now apply Prim_paren.
+Qed.
+
+Lemma good_all e : Good 0 e -> forall k, Good k e.
+Proof.
+  intros H0 [|k]; [exact H0|].
+  apply (good_wrapped e (body e)); [|intros lvl; apply rend_wrapped].
+  destruct (bare_root e) eqn:Eb.
+  - destruct e as [| | | | | | | | | |[] [|]|]; try discriminate. exact bare_root_inner.
+  - destruct H0 as (HA & _). intros f X HX Hf. pose proof (HA 0 (Nat.le_0_l _) f X HX) as H.
+    rewrite rend_unfold in H. rewrite Eb in H. replace (Nat.ltb (level e) 0) with false in H by (symmetry; apply Nat.ltb_ge; lia).
+    apply H. exact Hf.
 Qed.
 
 (** ** the induction *)
-Definition Pe (e : expr) : Prop := wf e = true -> Good e.
+Definition Pe (e : expr) : Prop := wf e = true -> forall k, Good k e.
 Definition Ps (s : stp) : Prop := wf_step s = true -> Qs s.
 
 Lemma args_facts args : Forall Pe args -> forallb wf args = true ->
-  Forall (fun a => A a 0) args /\ Forall starts_ok args.
+  Forall (fun a => A (xp a) a 0) args /\ Forall starts_ok args.
 Proof.
   intros HP Hw. assert (Hwf : Forall (fun a => wf a = true) args) by (eapply forallb_Forall; [|exact Hw]; auto).
   split.
-  - eapply Forall_imp2; [|exact HP|exact Hwf]. intros x Hx Hwx. apply (Hx Hwx). lia.
+  - eapply Forall_imp2; [|exact HP|exact Hwf]. intros x Hx Hwx. apply (Hx Hwx (xp x)). lia.
   - eapply Forall_impl; [|exact Hwf]. intros x. apply wf_starts_ok.
 Qed.
 
@@ -964,84 +1048,85 @@ Proof.
   eapply Forall_imp2; [|exact HP|exact Hwf]. intros x Hx Hwx. exact (Hx Hwx).
 Qed.
 
-Ltac rend_low := intros lvl Hlvl; rewrite rend_unfold; cbv zeta; cbn [level bare_root orb];
+Ltac rend_low := intros lvl Hlvl; rewrite rend_unfold; cbn [level bare_root orb body];
   match goal with |- context [Nat.ltb ?L lvl] => replace (Nat.ltb L lvl) with false by (symmetry; apply Nat.ltb_ge; lia) end;
   rewrite Bool.orb_false_r || idtac; reflexivity.
 
 Lemma all_good : (forall e, Pe e) /\ (forall s, Ps s).
 Proof.
   apply expr_stp_ind.
-  - (* EOr *) intros a b Ha Hb Hw. simpl in Hw. apply andb_prop in Hw. destruct Hw as [Hwa Hwb].
+  - (* EOr *) intros a b Ha Hb Hw. apply good_all. simpl in Hw. apply andb_prop in Hw. destruct Hw as [Hwa Hwb].
     apply (good_binary (EOr a b) a b 0 (TName (lit "or")) EOr); try reflexivity; try lia; auto. rend_low.
-  - (* EAnd *) intros a b Ha Hb Hw. simpl in Hw. apply andb_prop in Hw. destruct Hw as [Hwa Hwb].
+  - (* EAnd *) intros a b Ha Hb Hw. apply good_all. simpl in Hw. apply andb_prop in Hw. destruct Hw as [Hwa Hwb].
     apply (good_binary (EAnd a b) a b 1 (TName (lit "and")) EAnd); try reflexivity; try lia; auto. rend_low.
-  - (* ECmp *) intros op a b Ha Hb Hw. simpl in Hw. apply andb_prop in Hw. destruct Hw as [Hwa Hwb].
+  - (* ECmp *) intros op a b Ha Hb Hw. apply good_all. simpl in Hw. apply andb_prop in Hw. destruct Hw as [Hwa Hwb].
     apply (good_binary (ECmp op a b) a b (cmp_level op) (cmp_tok op) (ECmp op)); try reflexivity; auto.
     + destruct op; simpl; lia.
     + destruct op; reflexivity.
     + rend_low.
-    + simpl. now rewrite Nat.eqb_refl.
-  - (* EArith *) intros op a b Ha Hb Hw. simpl in Hw. apply andb_prop in Hw. destruct Hw as [Hwa Hwb].
+    + unfold nops. cbn [nops0]. now rewrite Nat.eqb_refl.
+  - (* EArith *) intros op a b Ha Hb Hw. apply good_all. simpl in Hw. apply andb_prop in Hw. destruct Hw as [Hwa Hwb].
     apply (good_binary (EArith op a b) a b (ar_level op) (ar_tok op) (EArith op)); try reflexivity; auto.
     + destruct op; simpl; lia.
     + destruct op; reflexivity.
     + rend_low.
-    + simpl. now rewrite Nat.eqb_refl.
-  - (* ENeg *) intros a Ha Hw. simpl in Hw. apply good_neg. auto.
-  - (* EUnion *) intros a b Ha Hb Hw. pose proof Hw as Hw'. simpl in Hw'. apply andb_prop in Hw'. destruct Hw' as [Hwa Hwb].
+    + unfold nops. cbn [nops0]. now rewrite Nat.eqb_refl.
+  - (* ENeg *) intros a Ha Hw. apply good_all. simpl in Hw. apply good_neg. auto.
+  - (* EUnion *) intros a b Ha Hb Hw. apply good_all. pose proof Hw as Hw'. simpl in Hw'. apply andb_prop in Hw'. destruct Hw' as [Hwa Hwb].
     apply good_union; auto.
-  - (* ELit *) intros v Hw. apply good_path; [reflexivity|exact Hw| |].
+  - (* ELit *) intros v Hw. apply good_all. apply good_path; [reflexivity|exact Hw| |].
     + intros f X HX Hf. exact (pp_filter (ELit v) [TLiteral v] [] [] (prim_head_lit v) (Prim_lit v) (Forall_nil _) (Forall_nil _) f X HX Hf).
     + intros _ f X Hf. exact (Prim_lit v f X Hf).
-  - (* ENum *) intros v Hw. apply good_path; [reflexivity|exact Hw| |].
+  - (* ENum *) intros v Hw. apply good_all. apply good_path; [reflexivity|exact Hw| |].
     + intros f X HX Hf. exact (pp_filter (ENum v) [TNumber v] [] [] (prim_head_num v) (Prim_num v) (Forall_nil _) (Forall_nil _) f X HX Hf).
     + intros _ f X Hf. exact (Prim_num v f X Hf).
-  - (* EVar *) intros q Hw. apply good_path; [reflexivity|exact Hw| |].
+  - (* EVar *) intros q Hw. apply good_all. apply good_path; [reflexivity|exact Hw| |].
     + intros f X HX Hf. exact (pp_filter (EVar q) [TVar q] [] [] (prim_head_var q) (Prim_var q) (Forall_nil _) (Forall_nil _) f X HX Hf).
     + intros _ f X Hf. exact (Prim_var q f X Hf).
-  - (* ECall *) intros q args Hargs Hw. pose proof Hw as Hw'. simpl in Hw'. apply andb_prop in Hw'. destruct Hw' as [Hq Hwa].
+  - (* ECall *) intros q args Hargs Hw. apply good_all. pose proof Hw as Hw'. simpl in Hw'. apply andb_prop in Hw'. destruct Hw' as [Hq Hwa].
     destruct (args_facts args Hargs Hwa) as [HA HS].
-    assert (Hr : forall lvl, lvl <= 8 -> rend lvl (ECall q args) = qname_toks q ++ TLPar :: (sep_by TComma (rend 0) args ++ [TRPar])).
-    { intros lvl Hlvl. rewrite rend_unfold. cbv zeta. cbn [level bare_root].
+    assert (Hr : forall lvl, lvl <= 8 -> rk 0 lvl (ECall q args) = qname_toks q ++ TLPar :: (sep_by TComma rz args ++ [TRPar])).
+    { intros lvl Hlvl. rewrite rend_unfold. cbn [level bare_root body].
       replace (Nat.ltb 8 lvl) with false by (symmetry; apply Nat.ltb_ge; lia). reflexivity. }
     apply good_path; [reflexivity|exact Hw| |].
     + intros f X HX Hf. rewrite (Hr 8 (le_n _)) in *.
       pose proof (pp_filter (ECall q args) _ [] [] (prim_head_call q _ Hq) (Prim_call q args HA HS) (Forall_nil _) (Forall_nil _) f X HX) as H.
       cbn [brackets map concat steps_part app] in H. rewrite app_nil_r in H. apply H. exact Hf.
     + intros _ f X Hf. rewrite (Hr 0 (Nat.le_0_l _)) in *. exact (Prim_call q args HA HS f X Hf).
-  - (* EPath *) intros abs steps Hsteps Hw. pose proof Hw as Hw'. simpl in Hw'. apply andb_prop in Hw'. destruct Hw' as [Hws Hshape].
+  - (* EPath *) intros abs steps Hsteps Hw. apply good_all. pose proof Hw as Hw'. simpl in Hw'. apply andb_prop in Hw'. destruct Hw' as [Hws Hshape].
     pose proof (steps_facts steps Hsteps Hws) as HQ.
     apply good_path; [reflexivity|exact Hw| |apply E_not_simple; reflexivity].
     destruct abs.
     + destruct steps as [|s ss]; [exact B_bare_root|].
-      intros f X HX Hf. rewrite rend_unfold in *. cbv zeta in *. cbn [level bare_root Nat.ltb Nat.leb orb] in *.
+      intros f X HX Hf. rewrite rend_unfold in *. cbn [level bare_root Nat.ltb Nat.leb orb body] in *.
       destruct f as [|g]; [unfold Np in Hf; lia|]. rewrite pp_S.
-      destruct (lead_cases (s :: ss)) as [E|(r & Er & Hr & E)]; [discriminate| |]; rewrite E in *; cbn [app length] in *.
+      destruct (lead_cases (s :: ss)) as [E0|(r & Er & Hr & E0)]; [discriminate| |]; rewrite E0 in *; cbn [app length] in *.
       * rewrite starts_step_join by discriminate.
         rewrite (relpath_ok (length (s :: ss))); [reflexivity|lia|discriminate|exact HQ|exact HX|unfold Np, Nr in *; lia].
       * rewrite Er in *. inversion HQ as [|? ? _ HQr]; subst.
         rewrite (relpath_ok (length r)); [reflexivity|lia|exact Hr|exact HQr|exact HX|unfold Np, Nr in *; lia].
     + simpl in Hshape. destruct steps as [|[a t ps|q args] ss]; try discriminate.
-      intros f X HX Hf. rewrite rend_unfold in *. cbv zeta in *. cbn [level bare_root Nat.ltb Nat.leb orb] in *.
+      intros f X HX Hf. rewrite rend_unfold in *. cbn [level bare_root Nat.ltb Nat.leb orb body] in *.
       destruct f as [|g]; [unfold Np in Hf; lia|]. rewrite pp_rel by exact HX.
       rewrite (relpath_ok (length (SAxis a t ps :: ss))); [reflexivity|lia|discriminate|exact HQ|exact HX|unfold Np, Nr in *; lia].
-  - (* EFilter *) intros e0 preds steps He0 Hpreds Hsteps Hw. pose proof Hw as Hw'. simpl in Hw'.
+  - (* EFilter *) intros e0 preds steps He0 Hpreds Hsteps Hw. apply good_all. pose proof Hw as Hw'. simpl in Hw'.
     apply andb_prop in Hw'. destruct Hw' as [Hw' Hshape]. apply andb_prop in Hw'. destruct Hw' as [Hw' Hws].
     apply andb_prop in Hw'. destruct Hw' as [Hw0 Hwp].
     destruct (args_facts preds Hpreds Hwp) as [HA _]. pose proof (steps_facts steps Hsteps Hws) as HQ.
-    destruct (He0 Hw0) as (A0 & _ & _ & _ & _ & E0).
+    destruct (He0 Hw0 (xp e0)) as (A0 & _ & _ & _ & _ & E0).
     apply good_path; [reflexivity|exact Hw| |apply E_not_simple; reflexivity].
-    intros f X HX Hf. rewrite rend_unfold in *. cbv zeta in *. cbn [level bare_root Nat.ltb Nat.leb orb] in *.
+    intros f X HX Hf. rewrite rend_unfold in *. cbn [level bare_root Nat.ltb Nat.leb orb body] in *.
     fold (steps_part steps) in *.
     assert (Hres : match preds, steps with [], [] => e0 | _, _ => EFilter e0 preds steps end = EFilter e0 preds steps)
       by (destruct preds, steps; try reflexivity; discriminate).
     rewrite <- Hres. rewrite <- !app_assoc.
     destruct (simple_primary e0) eqn:Es.
     + apply pp_filter; try assumption.
-      * destruct e0; try discriminate.
+      * destruct (xp e0) eqn:Ex; [|rewrite rend_wrapped; cbn [parensN]; apply prim_head_paren].
+        destruct e0; try discriminate.
         -- apply prim_head_lit. -- apply prim_head_num. -- apply prim_head_var.
         -- simpl in Hw0. apply andb_prop in Hw0. destruct Hw0 as [Hq0 _].
-           rewrite rend_unfold. cbv zeta. cbn [level bare_root Nat.ltb Nat.leb orb]. now apply prim_head_call.
+           rewrite rend_unfold. cbn [level bare_root Nat.ltb Nat.leb orb body]. now apply prim_head_call.
       * intros f' Y Hf'. now apply E0.
     + apply pp_filter; try assumption; [apply prim_head_paren|apply Prim_paren; apply A0; lia].
   - (* SAxis *) intros a t preds Hpreds Hw. simpl in Hw. destruct (args_facts preds Hpreds Hw) as [HA _]. now apply step_axis.
@@ -1050,22 +1135,27 @@ Proof.
 Qed.
 
 (** ** the theorem *)
-Theorem parse_rend : forall e, wf e = true -> parse_tokens false (rend 0 e) = Some e.
+Theorem parse_rend : forall e, wf e = true -> parse_tokens false (Render.rend xp ab 0 e) = Some e.
 Proof.
-  intros e Hw. destruct (proj1 all_good e Hw) as (HA & _). unfold parse_tokens.
-  specialize (HA 0 (Nat.le_0_l _) (30 * (length (rend 0 e) + 2)) [] eq_refl). rewrite app_nil_r in HA.
+  intros e Hw. unfold Render.rend. destruct (proj1 all_good e Hw (xp e)) as (HA & _). unfold parse_tokens.
+  specialize (HA 0 (Nat.le_0_l _) (30 * (length (rk (xp e) 0 e) + 2)) [] eq_refl). rewrite app_nil_r in HA.
   rewrite HA; [reflexivity|unfold Nb; lia].
 Qed.
-
 End AB.
 
-(** abbreviated forms are their expansions: both renderings of one AST parse to the same tree *)
-Corollary abbreviations_are_expansions_all e : wf e = true ->
-  parse_tokens false (rend true 0 e) = parse_tokens false (rend false 0 e).
+(** abbreviated forms are their expansions, redundant parentheses change nothing: all renderings
+    of one AST parse to the same tree *)
+Corollary renderings_agree xp xp' ab ab' e : wf e = true ->
+  parse_tokens false (rend xp ab 0 e) = parse_tokens false (rend xp' ab' 0 e).
 Proof. intros H. now rewrite !parse_rend. Qed.
 
+Corollary abbreviations_are_expansions_all e : wf e = true ->
+  parse_tokens false (rend minimal true 0 e) = parse_tokens false (rend minimal false 0 e).
+Proof. apply renderings_agree. Qed.
+
 (** non-vacuity: a well-formed AST using every level, with steps that abbreviate ([.], [..], [@],
-    implicit child, [//]), rendered both ways and read back by the kernel *)
+    implicit child, [//]), rendered in full, abbreviated, and with redundant parentheses around
+    every sub-expression, and read back by the kernel *)
 Example parse_rend_instance :
   let n1 := ENum (lit "1") in
   let a := EPath false [SAxis Child (NTName (lit "a")) [ECmp CEq (ECall (None, lit "position") []) n1];
@@ -1073,6 +1163,8 @@ Example parse_rend_instance :
   let e := EOr (EAnd (ECmp CLt (EArith ASub (EArith AMul (ENeg a) n1) n1) n1)
                      (EUnion a (EFilter (EVar (None, lit "v")) [n1] [SAxis DescendantOrSelf NTNode []; SAxis Child NTText []])))
                (EPath true []) in
-  wf e = true /\ parse_tokens false (rend false 0 e) = Some e /\ parse_tokens false (rend true 0 e) = Some e /\
-  rend true 0 e <> rend false 0 e.
-Proof. repeat split; try reflexivity. vm_compute. discriminate. Qed.
+  let twice := fun x : expr => match x with ENum _ => 2 | EPath _ _ => 1 | EAnd _ _ => 1 | _ => 0 end in
+  wf e = true /\ parse_tokens false (rend minimal false 0 e) = Some e /\ parse_tokens false (rend minimal true 0 e) = Some e /\
+  parse_tokens false (rend twice true 0 e) = Some e /\
+  rend minimal true 0 e <> rend minimal false 0 e /\ rend twice true 0 e <> rend minimal true 0 e.
+Proof. repeat split; try reflexivity; vm_compute; discriminate. Qed.
